@@ -32,6 +32,8 @@ type c07Plan struct {
 	// Full: so many packages are put in front of the context that the first packet (context and prefix of the
 	// truncated package) is exactly as long as the packet size in force, 512 bytes.
 	Full bool `json:"full,omitempty"`
+	// EmptyAtCut: an empty packet (no data, no end of message) arrives between the prefix and the rest.
+	EmptyAtCut bool `json:"empty_at_cut,omitempty"`
 }
 
 type c07 struct{}
@@ -130,6 +132,7 @@ func (c07) Gen(r *Rand, idx int, tier string) interface{} {
 	p.Pre = idx%3 == 1
 	p.Post = idx%4 == 1
 	p.Full = idx%7 == 3
+	p.EmptyAtCut = idx%9 == 4
 	return p
 }
 func (c07) Decode(raw json.RawMessage) (interface{}, error) {
@@ -219,7 +222,15 @@ func (c07) Run(plan interface{}, schedSeed uint64, replay []simrt.Choice, lenien
 		cuts = append(cuts, cut2)
 		pauses = append(pauses, 2*peer.HeaderSize+cut2)
 	}
-	got := runResp(cfg, respDelivery{Packets: peer.Packetise(full, cuts, peer.BufResponse, 0, true), TermAt: -1,
+	pkts := peer.Packetise(full, cuts, peer.BufResponse, 0, true)
+	if p.EmptyAtCut && len(pkts) >= 2 {
+		pkts = append([][]byte{pkts[0], peer.MakePacket(peer.BufResponse, 0, 0, 0, nil)}, pkts[1:]...)
+		if len(pauses) > 1 {
+			pauses[1] += peer.HeaderSize
+		}
+		v.Probe("empty-packet-at-the-cut")
+	}
+	got := runResp(cfg, respDelivery{Packets: pkts, TermAt: -1,
 		PauseAfterByte: pauses}, cl2)
 	out := got.Out
 	StdOutcome(v, base.Out)
@@ -232,7 +243,14 @@ func (c07) Run(plan interface{}, schedSeed uint64, replay []simrt.Choice, lenien
 		v.Probe("disputed-entry-rejected-unfragmented")
 		return v, out
 	}
-	if base.ConnErr != "" || base.SendErr != "" || len(base.Out.Crashes) > 0 || len(errsOnly(base.Recs)) > 0 {
+	for _, c := range base.Out.Crashes {
+		// whatever the library thinks of the encoding: it may reject it, it may not panic over it
+		v.Violate("panic", "panic "+CrashSig(c), "%s delivered in one piece: task %s panicked: %s\n%s", p.Entry, c.Task, c.Value, c.Stack)
+	}
+	if v.Class != "" {
+		return v, out
+	}
+	if base.ConnErr != "" || base.SendErr != "" || len(errsOnly(base.Recs)) > 0 {
 		v.Machinery = fmt.Sprintf("zoo entry %s is not accepted unfragmented: %s %s %v %v", p.Entry, base.ConnErr, base.SendErr, base.Out.Crashes, errsOnly(base.Recs))
 		return v, out
 	}
